@@ -99,3 +99,34 @@ Definition link_event (m : lmode) (s : slink) (d : dentry) : levent :=
                 | inl _ => if produced m s then EvUpdate else match m with LSkip => EvSkip | _ => EvUpdate end
                 end
   end.
+
+(* ---------- the source entry at the path may change its KIND between runs: a link becomes a regular file or a real directory
+   (`fix: a file or directory is never created through a symlink that sits in its place`) ---------- *)
+Inductive sany : Type :=
+| SALink (s : slink)
+| SAFile (c : N)            (* a regular file with content c *)
+| SADir.                    (* a directory (its children are separate entries written below the path) *)
+
+(* [guard = true] is the code as it is: a symlink in the place of a file or directory entry is removed first;
+   [guard = false] is the code before that repair: the planner stats THROUGH the link and fs::copy / the children's creation
+   land in the link's referent.  Result: the entry afterwards, and whether the step wrote through a destination link. *)
+Definition sync_any (guard : bool) (m : lmode) (e : sany) (d : dentry) : dentry * bool :=
+  match e with
+  | SALink s => (sync_link m s d, wrote_through m s d)
+  | SAFile c => match d with
+                | DLink t => if guard then (DFile c, false) else (DLink t, true)
+                | DDir => (DDir, false)                               (* EISDIR: reported, nothing written *)
+                | _ => (DFile c, false)
+                end
+  | SADir => match d with
+             | DLink t => if guard then (DDir, false) else (DLink t, true)     (* children would be created through the link *)
+             | DFile c => (DFile c, false)                            (* a file in the way: reported (finding C10-KF1) *)
+             | _ => (DDir, false)
+             end
+  end.
+
+Fixpoint resync_any (guard : bool) (m : lmode) (hist : list sany) (d : dentry) : dentry * bool :=
+  match hist with
+  | [] => (d, false)
+  | e :: h => let (d1, w1) := sync_any guard m e d in let (d2, w2) := resync_any guard m h d1 in (d2, w1 || w2)
+  end.
